@@ -7,8 +7,10 @@ import os
 HERE = os.path.dirname(os.path.dirname(os.path.abspath(__file__)))
 
 DYN_NOTE = ("Trusted base: the reference model nvf/model.py written from the property statements, the documented "
-            "vector layout (nvf/decode.py), NumPy's seeded global RandomState. Bounded: random documents <= 7 hosts, "
-            "generated scenarios <= 12 (thorough 30) hosts, histories <= 60 (150) ops; exhaustive only for the listed shipped scenarios.")
+            "vector layout (nvf/decode.py), NumPy's seeded global RandomState (start-up self-test; an uncontrolled draw gives exit 2). "
+            "Bounded: random documents <= 7 hosts (wide family <= 11 hosts / 9 subnets), generated scenarios <= 20 (thorough 40) hosts plus "
+            "a share of 40-70 host and of feature-rich (55-90 flags per host) scenarios, histories 12-60 (150) ops, flat and parameterised "
+            "actions, optionally next to a foreign environment; exhaustive for the listed shipped scenarios (thorough: ~200 random small documents).")
 
 CHECKS = {
     "C01": ("model-based stateful PBT (Hypothesis op lists, reference model oracle, steered draws) + exhaustive state enumeration of tiny*/small*",
